@@ -52,7 +52,7 @@ func raceCfg(dir string, port uint16) torrent.Config {
 	cfg.Host = "127.0.0.1"
 	cfg.PortBegin = port
 	cfg.PortEnd = port + 20
-	cfg.ResumeWriteInterval = 50 * time.Millisecond
+	cfg.ResumeWriteInterval = time.Millisecond
 	cfg.HealthCheckInterval = time.Second
 	cfg.HealthCheckTimeout = 20 * time.Second
 	cfg.TrackerStopTimeout = 200 * time.Millisecond
